@@ -353,6 +353,76 @@ fn record_c07_huge(out: &mut TraceOut, rng: &mut StdRng, w: u32, h: u32) {
     }
 }
 
+/// The first `max` non-zero bytes of a (mostly zero, possibly multi-gigabyte) buffer, block-wise so that the scan vectorises.
+fn nonzero(bytes: &[u8], max: usize) -> Vec<(usize, u8)> {
+    let mut v = vec![];
+    for (bi, block) in bytes.chunks(1 << 16).enumerate() {
+        if block.iter().fold(0u8, |a, b| a | *b) == 0 {
+            continue;
+        }
+        for (i, b) in block.iter().enumerate() {
+            if *b != 0 {
+                v.push(((bi << 16) + i, *b));
+                if v.len() >= max {
+                    return v;
+                }
+            }
+        }
+    }
+    v
+}
+
+/// Pages of 4 GiB and more (sizes beyond 32 bits): what from_bytes says of the dimensions when offered short buffers
+/// (the true size reduced modulo 2^32 and 2^31, one chunk, nothing), and -- when `alloc` -- single pixels of a real page
+/// of that size (the buffer is zero pages from the allocator: nothing is touched until a pixel is set).
+fn record_c07_wide(out: &mut TraceOut, rng: &mut StdRng, w: u32, h: u32, alloc: bool, npix: usize) {
+    let bpc = (h as u64 + 7) / 8;
+    let total = (4 + w as u64 * bpc + 15) / 16 * 16;
+    let mut lens: Vec<u64> = vec![0, 16, 32, total % (1 << 32), total % (1 << 31), (total % (1 << 32)) + 16, total & 0xFFFF_FFF0, 4096];
+    lens.retain(|l| *l <= (1 << 26));
+    lens.sort();
+    lens.dedup();
+    let mut probe = |out: &mut TraceOut, bytes: Vec<u8>| -> Option<Page<'static>> {
+        let len = bytes.len() as u64;
+        let r = catch(|| Page::from_bytes(w, h, bytes));
+        let (res, e, a_, page) = match r {
+            Ok(Ok(p)) => ("ok", 0u64, 0u64, Some(p)),
+            Ok(Err(flipdot_core::PageError::WrongPageLength { expected, actual, .. })) => ("wronglength", expected as u64, actual as u64, None),
+            Ok(Err(_)) => ("othererr", 0, 0, None),
+            Err(_) => ("panic", 0, 0, None),
+        };
+        out.emit(json!({"e": "frombytes_wide", "w": w, "h": h, "len_c": len / 16, "len_r": len % 16, "res": res,
+                        "exp_c": e / 16, "exp_r": e % 16, "act_c": a_ / 16, "act_r": a_ % 16}));
+        page
+    };
+    for l in lens {
+        let _ = probe(out, vec![0u8; l as usize]);
+    }
+    if !alloc {
+        return;
+    }
+    let Some(mut p) = probe(out, vec![0u8; total as usize]) else { return };
+    let mut coords = vec![(w - 1, h - 1), (w - 1, 0), ((((1u64 << 32) / bpc) as u32).min(w - 1), 0), (0, 0)];
+    for _ in 0..npix.saturating_sub(coords.len()) {
+        coords.push((rng.gen_range(0..w), rng.gen_range(0..h)));
+    }
+    coords.truncate(npix.max(1));
+    for (x, y) in coords {
+        if catch(std::panic::AssertUnwindSafe(|| p.set_pixel(x, y, true))).is_err() {
+            out.emit(json!({"e": "set1_wide", "w": w, "h": h, "x": x, "y": y, "changed": [], "panic": true, "reads": false}));
+            continue;
+        }
+        let changed: Vec<Value> = nonzero(p.as_bytes(), 8).into_iter().map(|(i, b)| json!([(i as u64) >> 16, (i as u64) & 0xFFFF, b])).collect();
+        let reads = catch(std::panic::AssertUnwindSafe(|| p.get_pixel(x, y))).unwrap_or(false);
+        out.emit(json!({"e": "set1_wide", "w": w, "h": h, "x": x, "y": y, "changed": changed, "panic": false, "reads": reads}));
+        // back to a blank page for the next pixel
+        let _ = catch(std::panic::AssertUnwindSafe(|| p.set_pixel(x, y, false)));
+        if !nonzero(p.as_bytes(), 1).is_empty() {
+            return; // the page cannot be blanked through its own interface any more: stop (the event above already shows why)
+        }
+    }
+}
+
 pub fn record_c07(a: &Args) -> usize {
     let thorough = a.tier == "thorough";
     let mut rng = StdRng::seed_from_u64(a.seed ^ 0xC07);
@@ -361,6 +431,14 @@ pub fn record_c07(a: &Args) -> usize {
     for (w, h) in huge {
         out.balance();
         record_c07_huge(&mut out, &mut rng, w, h);
+    }
+    // sizes beyond 32 bits: dimension-only probes always; a real page of 4 GiB + a few KiB with single pixels on both sides
+    // of the 2^32-byte mark
+    let wide: Vec<(u32, u32, bool)> = if thorough { vec![(1 << 20, 1 << 15, false), (1_048_577, 32_768, true), (3_000_000, 11_500, true), (70_000, 500_000, false), (4_194_303, 8_191, false)] }
+                                      else { vec![(1 << 20, 1 << 15, false), (1_048_577, 32_768, true), (70_000, 500_000, false)] };
+    for (w, h, alloc) in wide {
+        out.balance();
+        record_c07_wide(&mut out, &mut rng, w, h, alloc, if thorough { 12 } else { 4 });
     }
     let mut sizes: Vec<(u32, u32)> = ALL_TYPES.iter().map(|t| t.dimensions()).collect();
     sizes.extend_from_slice(&[(0, 0), (0, 1), (1, 0), (12, 8), (13, 8), (6, 16), (4, 20), (28, 1), (28, 8), (5, 17), (5, 24), (5, 25), (3, 33), (1000, 16), (255, 255)]);
@@ -601,6 +679,42 @@ pub fn record_c19(a: &Args) -> usize {
             b[0] = *f;
             b[1] = *i;
             out.emit(json!({"e": "decode", "bytes": j::bytes(&b), "r": decode_type(&b)}));
+        }
+        // field erasure: every genuine block with every small subset (thorough: every subset) of its other 14 bytes forced
+        // to 0x00 or 0xFF -- acceptance must depend on the family and id bytes alone, whatever the geometry fields say
+        for (ti, t) in types.iter().enumerate() {
+            if ti % shards != sh {
+                continue;
+            }
+            let block = t.to_bytes();
+            for mask in 0u32..(1 << 14) {
+                if !(thorough || mask.count_ones() <= 3 || rng.gen_bool(0.01)) {
+                    continue;
+                }
+                for fill in [0x00u8, 0xFF] {
+                    let mut b = block.to_vec();
+                    for k in 0..14 {
+                        if mask & (1 << k) != 0 {
+                            b[2 + k] = fill;
+                        }
+                    }
+                    out.emit(json!({"e": "decode", "bytes": j::bytes(&b), "r": decode_type(&b)}));
+                }
+            }
+            // a genuine block followed by padding of every length 1..=48 (and whole further rows) in the fillers a wire or a
+            // page would use, and by copies of itself: only length 16 may be accepted
+            for pad in (1..=48usize).chain([64, 80, 240, 256]) {
+                for fill in [0x00u8, 0xFF, 0x20, 0x0A] {
+                    let mut b = block.to_vec();
+                    b.extend(std::iter::repeat(fill).take(pad));
+                    out.emit(json!({"e": "decode", "bytes": j::bytes(&b), "r": decode_type(&b)}));
+                }
+                let mut b = block.to_vec();
+                while b.len() < 16 + pad {
+                    b.push(block[b.len() % 16]);
+                }
+                out.emit(json!({"e": "decode", "bytes": j::bytes(&b), "r": decode_type(&b)}));
+            }
         }
         // every length 0..=40 and lengths that are 16 modulo a power of two, with supported and unsupported leading bytes
         for len in (0..=40usize).chain([48, 64, 127, 128, 144, 255, 256, 257, 271, 272, 273, 528, 4112, 65552]) {
